@@ -6,10 +6,13 @@ CONSTANTS
   PowBaseMax = 256
   PowExpMax = 32
   LeafInts = {}
+  NegSyms = {}
+  NegInts = {}
   Vals = {1, 2, 3, 4}
   UnSet = {}
   BinSet = {}
   PerClass = 2
+  ClosedBoost = 1
   SampleRem = 0
   NRand = 0
   RandDepth = 0
